@@ -97,5 +97,175 @@ def build(repo, findings):
         'label': 'bounded', 'bound': 'subject strings: all %d strings of <= %d characters over {a, U+00E9, U+1F680} (1-, 2-, 4-byte) [quick: <= 2 chars, thorough: <= 3 chars]; match predicate: fully symbolic (64-bit table by candidate byte length); unwind 16 with unwinding assertions' % (len(sel), 3 if tier == 'thorough' else 2),
         'props': ['C06'], 'quick': True,
     })
+    # ---- second bounded job: Expansion::classify (set / unset / null), closures over iterators — not Verus material
+    ex = u.source('brush-core/src/expansion.rs')
+    cl_items = [ex.item(r'^enum ExpansionPiece ', 'ExpansionPiece').r1(keep_derive=('Clone',)),
+                ex.item(r'^struct WordField\(', 'WordField').r1(keep_derive=('Clone', 'Default')),
+                ex.item(r'^struct Expansion ', 'Expansion').r1(keep_derive=()),
+                ex.item(r'^enum ParameterState ', 'ParameterState').r1(keep_derive=())]
+    cl_fn = ex.method(r'^impl Expansion \{(?=\n    fn classify)', 'classify', 'classify').r1()
+    cl_as = ex.method(r'^impl ExpansionPiece ', 'as_str', 'ExpansionPiece::as_str').r1()
+    for it in cl_items + [cl_fn, cl_as]:
+        u.items.append(it)
+
+    def gen_classify(workdir):
+        d = os.path.join(workdir, 'kani_u9b')
+        os.makedirs(os.path.join(d, 'src'), exist_ok=True)
+        os.makedirs(os.path.join(d, '.cargo'), exist_ok=True)
+        body = '#![allow(unused, dead_code)]\n// ---- extracted verbatim from brush-core/src/expansion.rs\n' + '\n\n'.join(i.text for i in cl_items)
+        body += '\n\nimpl ExpansionPiece {\n' + '\n'.join('    ' + l for l in cl_as.text.split('\n')) + '\n}\n'
+        body += '\nimpl Expansion {\n' + '\n'.join('    ' + l for l in cl_fn.text.split('\n')) + '\n}\n'
+        body += '''
+// every expansion with <= 2 fields of <= 2 pieces each (shape concrete per harness; quoting, emptiness and flags symbolic)
+fn any_piece() -> (ExpansionPiece, bool) {
+    let nonempty: bool = kani::any();
+    let s = if nonempty { String::from("x") } else { String::new() };
+    if kani::any() { (ExpansionPiece::Splittable(s), nonempty) } else { (ExpansionPiece::Unsplittable(s), nonempty) }
+}
+fn check(fields: Vec<WordField>, some_nonempty: bool) {
+    let undefined: bool = kani::any();
+    let no_fields = fields.is_empty();
+    let e = Expansion { fields, concatenate: kani::any(), from_array: kani::any(), undefined };
+    // C06 set/unset/null: non-null iff SOME element has SOME non-empty piece (bash: "${a[@]:-d}" with a=("" x) is not null)
+    let got = e.classify();
+    assert!(matches!(got, ParameterState::NonZeroLength) == (!undefined && some_nonempty));
+    assert!(matches!(got, ParameterState::Undefined) == (undefined || (!some_nonempty && no_fields)));
+}
+#[cfg(kani)]
+#[kani::proof]
+#[kani::unwind(4)]
+fn classify_shape_0() {
+    let mut ne = false;
+    let mut fields = Vec::new();
+    check(fields, ne);
+}
+#[cfg(kani)]
+#[kani::proof]
+#[kani::unwind(4)]
+fn classify_shape_1() {
+    let mut ne = false;
+    let mut fields = Vec::new();
+    { let mut v = Vec::new(); fields.push(WordField(v)); }
+    check(fields, ne);
+}
+#[cfg(kani)]
+#[kani::proof]
+#[kani::unwind(4)]
+fn classify_shape_2() {
+    let mut ne = false;
+    let mut fields = Vec::new();
+    { let mut v = Vec::new(); { let (p, n) = any_piece(); ne |= n; v.push(p); } fields.push(WordField(v)); }
+    check(fields, ne);
+}
+#[cfg(kani)]
+#[kani::proof]
+#[kani::unwind(4)]
+fn classify_shape_3() {
+    let mut ne = false;
+    let mut fields = Vec::new();
+    { let mut v = Vec::new(); { let (p, n) = any_piece(); ne |= n; v.push(p); } { let (p, n) = any_piece(); ne |= n; v.push(p); } fields.push(WordField(v)); }
+    check(fields, ne);
+}
+#[cfg(kani)]
+#[kani::proof]
+#[kani::unwind(4)]
+fn classify_shape_4() {
+    let mut ne = false;
+    let mut fields = Vec::new();
+    { let mut v = Vec::new(); fields.push(WordField(v)); }
+    { let mut v = Vec::new(); fields.push(WordField(v)); }
+    check(fields, ne);
+}
+#[cfg(kani)]
+#[kani::proof]
+#[kani::unwind(4)]
+fn classify_shape_5() {
+    let mut ne = false;
+    let mut fields = Vec::new();
+    { let mut v = Vec::new(); fields.push(WordField(v)); }
+    { let mut v = Vec::new(); { let (p, n) = any_piece(); ne |= n; v.push(p); } fields.push(WordField(v)); }
+    check(fields, ne);
+}
+#[cfg(kani)]
+#[kani::proof]
+#[kani::unwind(4)]
+fn classify_shape_6() {
+    let mut ne = false;
+    let mut fields = Vec::new();
+    { let mut v = Vec::new(); fields.push(WordField(v)); }
+    { let mut v = Vec::new(); { let (p, n) = any_piece(); ne |= n; v.push(p); } { let (p, n) = any_piece(); ne |= n; v.push(p); } fields.push(WordField(v)); }
+    check(fields, ne);
+}
+#[cfg(kani)]
+#[kani::proof]
+#[kani::unwind(4)]
+fn classify_shape_7() {
+    let mut ne = false;
+    let mut fields = Vec::new();
+    { let mut v = Vec::new(); { let (p, n) = any_piece(); ne |= n; v.push(p); } fields.push(WordField(v)); }
+    { let mut v = Vec::new(); fields.push(WordField(v)); }
+    check(fields, ne);
+}
+#[cfg(kani)]
+#[kani::proof]
+#[kani::unwind(4)]
+fn classify_shape_8() {
+    let mut ne = false;
+    let mut fields = Vec::new();
+    { let mut v = Vec::new(); { let (p, n) = any_piece(); ne |= n; v.push(p); } fields.push(WordField(v)); }
+    { let mut v = Vec::new(); { let (p, n) = any_piece(); ne |= n; v.push(p); } fields.push(WordField(v)); }
+    check(fields, ne);
+}
+#[cfg(kani)]
+#[kani::proof]
+#[kani::unwind(4)]
+fn classify_shape_9() {
+    let mut ne = false;
+    let mut fields = Vec::new();
+    { let mut v = Vec::new(); { let (p, n) = any_piece(); ne |= n; v.push(p); } fields.push(WordField(v)); }
+    { let mut v = Vec::new(); { let (p, n) = any_piece(); ne |= n; v.push(p); } { let (p, n) = any_piece(); ne |= n; v.push(p); } fields.push(WordField(v)); }
+    check(fields, ne);
+}
+#[cfg(kani)]
+#[kani::proof]
+#[kani::unwind(4)]
+fn classify_shape_10() {
+    let mut ne = false;
+    let mut fields = Vec::new();
+    { let mut v = Vec::new(); { let (p, n) = any_piece(); ne |= n; v.push(p); } { let (p, n) = any_piece(); ne |= n; v.push(p); } fields.push(WordField(v)); }
+    { let mut v = Vec::new(); fields.push(WordField(v)); }
+    check(fields, ne);
+}
+#[cfg(kani)]
+#[kani::proof]
+#[kani::unwind(4)]
+fn classify_shape_11() {
+    let mut ne = false;
+    let mut fields = Vec::new();
+    { let mut v = Vec::new(); { let (p, n) = any_piece(); ne |= n; v.push(p); } { let (p, n) = any_piece(); ne |= n; v.push(p); } fields.push(WordField(v)); }
+    { let mut v = Vec::new(); { let (p, n) = any_piece(); ne |= n; v.push(p); } fields.push(WordField(v)); }
+    check(fields, ne);
+}
+#[cfg(kani)]
+#[kani::proof]
+#[kani::unwind(4)]
+fn classify_shape_12() {
+    let mut ne = false;
+    let mut fields = Vec::new();
+    { let mut v = Vec::new(); { let (p, n) = any_piece(); ne |= n; v.push(p); } { let (p, n) = any_piece(); ne |= n; v.push(p); } fields.push(WordField(v)); }
+    { let mut v = Vec::new(); { let (p, n) = any_piece(); ne |= n; v.push(p); } { let (p, n) = any_piece(); ne |= n; v.push(p); } fields.push(WordField(v)); }
+    check(fields, ne);
+}
+'''
+        open(os.path.join(d, 'src', 'lib.rs'), 'w').write(body)
+        open(os.path.join(d, 'Cargo.toml'), 'w').write('[package]\nname = "vx_u9b"\nversion = "0.0.0"\nedition = "2021"\n\n[lib]\npath = "src/lib.rs"\n\n[workspace]\n')
+        open(os.path.join(d, '.cargo', 'config.toml'), 'w').write('[net]\noffline = true\n')
+        return d
+
+    u.bounded.append({
+        'name': 'classify-set-unset-null', 'build': gen_classify, 'harnesses': ['classify_shape_%d' % i for i in (range(13) if tier == 'thorough' else (0, 1, 2, 4, 5, 7, 8))], 'timeout': 300, 'workers': 13,
+        'label': 'bounded', 'bound': 'all expansions with <= 2 fields of <= 2 pieces [quick: <= 1 piece per field] (one harness per shape), each piece quoted or unquoted, empty or one character; undefined / concatenate / from_array symbolic',
+        'props': ['C06'], 'quick': True,
+    })
     u.assume('stub', 'Pattern::to_regex / Regex::is_match are replaced by an arbitrary predicate on the candidate (so the result does not depend on regex semantics); BOUNDED in the subject string, complete in the predicate; not counted as proved')
     return u
